@@ -717,3 +717,14 @@ func (g *Registry) referrers(req *http.Request, rec *ReqRecord, repo *RegRepo, r
 	b, _ := json.Marshal(idx)
 	return g.resp(req, 200, h, b, int64(len(b)))
 }
+
+// PutManifest stores a manifest directly (test setup).
+func (repo *RegRepo) PutManifest(d digest.Digest, b []byte, mediaType string) {
+	repo.Manifests[d] = regManifest{bytes: b, mediaType: mediaType}
+}
+
+// ManifestBytes returns the stored bytes of a manifest.
+func (repo *RegRepo) ManifestBytes(d digest.Digest) ([]byte, bool) {
+	m, ok := repo.Manifests[d]
+	return m.bytes, ok
+}
